@@ -251,7 +251,7 @@ def process_fn(ctx, f, comps, opts, subs):
     attrs = "".join(a.rstrip() + "\n" for a in subs["attr"])
     lo, hi = it.line_span()
     ctx.items.append({"path": where, "kind": "fn", "file": f, "lines": [lo, hi], "sha256": it.sha(), "rules": log,
-                      "out_name": opts.get("name", parts["name"]), "imported_from": ctx.contracts_only})
+                      "out_name": opts.get("name", parts["name"]), "imported_from": ctx.contracts_only, "src_text": it.text})
     return attrs + out + "\n"
 
 
